@@ -276,7 +276,11 @@ func (rc *refCache) get(c *Corpus, op Op) (Res, error) {
 			return r, nil
 		}
 	}
-	cmd := exec.Command(os.Args[0], "ref")
+	bin := os.Args[0]
+	if rb := os.Getenv("SIM_REFBIN"); rb != "" {
+		bin = rb // race builds use the plain build of the same sources for references (much faster)
+	}
+	cmd := exec.Command(bin, "ref")
 	cmd.Stdin = strings.NewReader(string(b))
 	cmd.Env = append(os.Environ(), "GORACE=halt_on_error=0")
 	var stderr strings.Builder
